@@ -353,6 +353,8 @@ EXACT_INT = {"sum", "prod", "min", "max", "any", "all", "nansum", "nanprod", "na
              "argmin", "argmax", "nanargmin", "nanargmax", "topk", "argtopk", "ptp"}
 EXACT_FLOAT = {"min", "max", "nanmin", "nanmax", "any", "all", "count_nonzero", "argmin", "argmax", "nanargmin",
                "nanargmax", "topk", "argtopk", "ptp"}
+ARG_REDS = {"argmin", "argmax", "nanargmin", "nanargmax"}
+MINMAX = {"min", "max", "nanmin", "nanmax", "ptp"}
 VAR_FAMILY = {"var", "std", "moment2", "moment3", "moment4"}
 REDUCTIONS = ["sum", "prod", "min", "max", "any", "all", "mean", "var", "std", "moment2", "moment3", "nansum", "nanprod",
               "nanmin", "nanmax", "nanmean", "nanvar", "nanstd", "argmin", "argmax", "nanargmin", "nanargmax",
@@ -365,10 +367,18 @@ COMPLEX_OK = {"sum", "prod", "mean", "var", "std", "any", "all", "count_nonzero"
 
 
 def make_data(case):
+    if "literal" in case:
+        return np.array(case["literal"], dtype=case["dtype"])
     rg = np.random.default_rng(case["data_seed"])
     shape = tuple(case["shape"])
     dt = case["dtype"]
-    if dt == "int64":
+    if case.get("unique"):
+        # tie-free data (a permutation): the arg-reduction answer does not depend on a tie rule
+        n = int(np.prod(shape))
+        x = rg.permutation(n).reshape(shape).astype(np.int64 if dt != "float64" else np.float64)
+        if dt == "float64":
+            x = x / 4.0 - 1.0
+    elif dt == "int64":
         x = rg.integers(-3, 4, size=shape).astype(np.int64)
     elif dt == "bool":
         x = rg.random(shape) < case.get("p", 0.5)
@@ -563,6 +573,12 @@ def check_case(ctx, case, count=True):
     # classification of the two classes that are reproduced on the unchanged tree (see known_findings)
     if red in VAR_FAMILY and has_empty_reduced_chunk(case) and np.isnan(got).any() and not np.isnan(want).all():
         sig = "reduction:var-family:empty-chunk-combine-nan"
+    elif red in ARG_REDS and case["axis"] is None and a.ndim >= 2 and sig.endswith(":value") and got.size == 1:
+        g, w = a.reshape(-1)[int(got.reshape(-1)[0])], a.reshape(-1)[int(want.reshape(-1)[0])]
+        if g == w or (g != g and w != w):
+            sig = "reduction:arg-ravel:tie-not-first-in-C-order"
+    elif red in MINMAX and any(0 in c for c in chunks) and not has_empty_reduced_chunk(case) and sig.endswith((":shape", ":value")):
+        sig = "reduction:minmax:zero-length-chunk-on-kept-axis"
     ctx.fail(sig, dict(case, got=_short(got), want=_short(want)), what)
     return False
 
@@ -648,11 +664,26 @@ def rand_case(ctx, red, rng):
         case["keepdims"] = False
     if red in NO_KEEPDIMS:
         case["keepdims"] = False
+    if red in ARG_REDS and axis is None and nd >= 2:
+        # flat arg-reduction over several axes: ties are resolved in block order, not C order (known class,
+        # probed separately) -> tie-free data in the random stream
+        case["unique"] = True
+        if dtype == "bool":
+            case["dtype"] = "int64"
+        if case["nan"] in ("some", "slice", "all"):
+            case["nan"] = "one"
+    if red in MINMAX:
+        # zero-length chunks only on reduced axes (on kept axes: known class, probed separately)
+        axes = set(range(nd)) if axis is None else ({axis % nd} if isinstance(axis, int) else {a % nd for a in axis})
+        for i in range(nd):
+            if i not in axes and 0 in chunks[i]:
+                chunks[i] = [c for c in chunks[i] if c] or [shape[i]]
     return case
 
 
 def search(ctx):
     rng = ctx.rng
+    t_start = ctx.elapsed()
     per = ctx.scale(100, 1500)
     # structured small sweep first: 1-d, every reduction x chunking with depth >= 3 x split_every 2 x ties
     for red in REDUCTIONS:
@@ -664,13 +695,13 @@ def search(ctx):
                 if red in ("topk", "argtopk"):
                     case["k"] = rng.choice([2, -2, 3])
                 check_case(ctx, case)
-    for red in REDUCTIONS:
-        for _ in range(per):
+    for _ in range(per):
+        for red in REDUCTIONS:
             case = rand_case(ctx, red, rng)
             ok = check_case(ctx, case)
             if ok and len(ctx.samples) < 6 and rng.random() < 0.01:
                 ctx.sample(case)
-            if ctx.elapsed() > ctx.scale(48, 520):
+            if ctx.elapsed() - t_start > ctx.scale(30, 420):
                 ctx.notes["search_truncated_at"] = red
                 return
 
@@ -746,7 +777,10 @@ def check_slice_case(ctx, case, count=True):
     for opt, (got, shp, exc) in results.items():
         tag = "optimized" if opt else "unoptimized"
         if exc is not None:
-            ctx.fail(f"reduction-slice:{case['red']}:raises", dict(case, optimize=opt, error=repr(exc)[:300], want=_short(want)),
+            sig = f"reduction-slice:{case['red']}:raises"
+            if want.size == 0 and opt and results[False][2] is None and case["red"] in NEEDS_NONEMPTY:
+                sig = "reduction-slice:empty-selection-raises-when-optimized"
+            ctx.fail(sig, dict(case, optimize=opt, error=repr(exc)[:300], want=_short(want)),
                      f"sliced reduction raises ({tag}) where NumPy returns a value")
             return False
         bad = None
@@ -770,6 +804,7 @@ def check_slice_case(ctx, case, count=True):
 
 def slice_search(ctx):
     rng = ctx.rng
+    t_start = ctx.elapsed()
     for _ in range(ctx.scale(1200, 15000)):
         red = rng.choice(SLICE_REDS)
         nd = rng.choice([2, 2, 3])
@@ -791,9 +826,17 @@ def slice_search(ctx):
         # shape of the reduction output
         _, want_fn = call_pair(case, _NoDask(), None, a)
         out_shape = np.asarray(want_fn()).shape
-        case["index"] = enc_index(rand_index(rng, out_shape))
+        idx = rand_index(rng, out_shape)
+        if red in NEEDS_NONEMPTY:
+            # empty selections of identity-less reductions: known class (raises when optimized), probed separately
+            try:
+                if np.empty(out_shape)[idx].size == 0:
+                    continue
+            except IndexError:
+                continue
+        case["index"] = enc_index(idx)
         check_slice_case(ctx, case)
-        if ctx.elapsed() > ctx.scale(58, 580):
+        if ctx.elapsed() - t_start > ctx.scale(12, 150):
             ctx.notes["slice_search_truncated"] = True
             return
 
@@ -826,6 +869,18 @@ def probe_known(ctx):
     case = {"red": "var", "shape": [2], "chunks": [[1, 0, 1]], "axis": None, "keepdims": False, "split_every": 2, "dtype": "float64",
             "nan": "none", "data_seed": 1}
     check_case(ctx, case)
+    # (4) flat arg-reduction over >= 2 axes with ties: first in block order, not first in C order
+    case = {"red": "argmin", "shape": [2, 2], "chunks": [[2], [1, 1]], "axis": None, "keepdims": False, "split_every": None, "dtype": "int64",
+            "nan": "none", "data_seed": 0, "literal": [[1, 0], [0, 1]]}
+    check_case(ctx, case)
+    # (5) min/max with a zero-length chunk on a kept (non-reduced) axis of a 3-d array: empty result
+    case = {"red": "min", "shape": [3, 1, 1], "chunks": [[3], [0, 1], [1]], "axis": 0, "keepdims": True, "split_every": None, "dtype": "float64",
+            "nan": "none", "data_seed": 0, "literal": [[[1.0]], [[2.0]], [[3.0]]]}
+    check_case(ctx, case)
+    # (6) empty selection of an identity-less reduction: the optimized graph raises
+    case = {"red": "max", "shape": [4, 2], "chunks": [[2, 2], [2]], "axis": [1], "keepdims": True, "split_every": None, "dtype": "float64",
+            "nan": "none", "data_seed": 0, "index": ["1:3:2", "5:1:2"]}
+    check_slice_case(ctx, case)
     # (3) argtopk with |k| == axis length spread over several chunks
     case = {"red": "argtopk", "shape": [2], "chunks": [[1, 1]], "axis": 0, "keepdims": False, "split_every": None, "dtype": "int64",
             "nan": "none", "data_seed": 1, "k": 2}
@@ -916,8 +971,10 @@ def run(ctx, replay=None):
                 targeted(ctx)
         return
     correspondence(ctx)
+    ctx.notes["t.correspondence_s"] = round(ctx.elapsed(), 1)
     probe_known(ctx)
     search(ctx)
+    ctx.notes["t.search_s"] = round(ctx.elapsed(), 1)
     slice_search(ctx)
     if ctx.disagreements:
         targeted(ctx)
